@@ -131,7 +131,7 @@ func (a *astCoverage) readsFrom(roots ...*ssa.Function) (map[string]string, int)
 }
 
 func checkC21(c *Check) {
-	c.Explanation = "TL1 printer coverage (the round trip itself — printed text re-parses to the same combinators — needs execution and is not decided): every schema-meaning field of the AST node types (Combinator, Constructor, Name, TemplateArgument, Field, FieldMask, TypeRef, ArithmeticOrType, Arithmetic, ScaleFactor, RepeatWithScale, TypeDeclaration, Modifier; positions and comment text excluded) that the parser functions of tlparser_code.go write is read by the String() printer family reachable from Combinator.String (type-resolved field reads over the call graph). A parsed field the printer never looks at cannot survive print → parse."
+	c.Explanation = "TL1 printer coverage (the round trip itself — printed text re-parses to the same combinators — needs execution and is not decided): every schema-meaning field of the AST node types (Combinator, Constructor, Name, TemplateArgument, Field, FieldMask, TypeRef, ArithmeticOrType, Arithmetic, ScaleFactor, RepeatWithScale, TypeDeclaration, Modifier; positions and comment text excluded) that the parser functions of tlparser_code.go write is read by the String() printer family reachable from Combinator.String (type-resolved field reads over the call graph). A parsed field the printer never looks at cannot survive print → parse. (2) token order: when the parser of a node fills field F at an earlier token-consumption step than field G, the node's printer does not emit G's text before F's (emission events and fill steps are computed from the type-checked syntax trees of the printer methods and parse functions; names of locals are irrelevant)."
 	c.NotCovered = "that the printed text is the grammar-level inverse of the parser (needs execution); layout"
 	c.Trusted = []string{"go/types", "go/ssa + VTA call graph"}
 	a := loadASTCoverage(c)
@@ -156,6 +156,8 @@ func checkC21(c *Check) {
 		c.Ob("printer/parsed-field-is-printed", f, ok, "", fmt.Sprintf("written by %s; read by printer function %s", a.written[f], orStr(reads[f], "— none —")))
 	}
 	c.Floor("printer/parsed-field-is-printed", 15)
+	printerOrderFollowsParser(c, a.r, a.pkg)
+	c.Floor("printer/field-order-follows-parser", 6)
 }
 
 // c21Unprinted: parsed fields that the String() family legitimately does not read (derived values).
@@ -164,7 +166,7 @@ var c21Unprinted = map[string]string{
 }
 
 func checkC25(c *Check) {
-	c.Explanation = "Canonical listing (re-parse equality needs execution and is not decided): (1) Generate2TL emits exactly one canonicalFormWithTag() line per combinator, skipping only the listed builtin names; (2) the tag printed is the effective tag (Crc32()); (3) the canonical printer family reachable from canonicalFormWithTag reads every schema-meaning field the parser writes that the canonical form is documented to keep (names, explicit/implicit tag, template arguments, fields with masks, repetitions and types, result type); fields it drops by design (modifiers/annotations, arithmetic spelling) are listed."
+	c.Explanation = "Canonical listing (re-parse equality needs execution and is not decided): (1) Generate2TL emits exactly one canonicalFormWithTag() line per combinator, skipping only the listed builtin names; (2) the tag printed is the effective tag (Crc32()); (3) the canonical printer family reachable from canonicalFormWithTag reads every schema-meaning field the parser writes that the canonical form is documented to keep (names, explicit/implicit tag, template arguments, fields with masks, repetitions and types, result type); fields it drops by design (modifiers/annotations, arithmetic spelling) are listed. (4) sibling agreement of the listing's printers with the ordinary printer of the same node: a field that <Node>.String consults on every path is consulted on every path by each printer the listing runs for that node (a path that skips it prints a text that does not depend on it)."
 	c.NotCovered = "that each line parses back to the same combinator (needs execution); F2 (C23): bracket fields printed through the non-canonical printer"
 	c.Trusted = []string{"go/types", "go/ssa + VTA call graph"}
 	a := loadASTCoverage(c)
@@ -192,6 +194,19 @@ func checkC25(c *Check) {
 		c.Ob("canonical/parsed-field-is-printed", f, ok, "", fmt.Sprintf("written by %s; read by canonical printer function %s", a.written[f], orStr(reads[f], "— none —")))
 	}
 	c.Floor("canonical/parsed-field-is-printed", 10)
+	reach := map[string]bool{}
+	for fn := range a.p.reachable(roots...) {
+		top := fn
+		for top.Parent() != nil {
+			top = top.Parent()
+		}
+		if obj, _ := top.Object().(*types.Func); obj != nil {
+			reach[obj.FullName()] = true
+		}
+	}
+	// only the printers the listing actually runs (the tag form, C23, drops parts by design)
+	printerSiblingsConsultSameFields(c, a.r, "canonical/field-consulted-on-every-path", true, func(pb *printerBody) bool { return reach[pb.fi.Obj.FullName()] })
+	c.Floor("canonical/field-consulted-on-every-path", 25)
 	// (1) one line per combinator, (2) effective tag
 	if ir := a.r.ir("internal/tlast.TL.StreamGenerate2TL"); ir != nil {
 		var loop *LoopN
